@@ -609,3 +609,23 @@ Proof.
     + lia.
     + change (2 ^ 64) with 18446744073709551616. lia.
 Qed.
+
+(* the conversion's outcome is a function of the serialised length *)
+Lemma from_outcome fs :
+  existsb subfield_overflows fs = false -> lenN (enc_fields fs) < 2 ^ 64 ->
+  match raw_of_extra fs with
+  | Ok raw => raw = enc_fields fs /\ raw_of_extra_outcome (lenN (enc_fields fs)) = Ok (lenN raw)
+  | Err _ => False
+  | Panic => raw_of_extra_outcome (lenN (enc_fields fs)) = Panic
+  end.
+Proof.
+  intros Ho Hu. unfold raw_of_extra_outcome, over_cap.
+  destruct (N.ltb_spec MAX_VEC_MEM_ALLOC_SIZE (1 * lenN (enc_fields fs))) as [L|L].
+  - rewrite raw_of_extra_panics by lia. reflexivity.
+  - rewrite raw_of_extra_ok by (assumption || lia). auto.
+Qed.
+Lemma nonce_field_len_ok b : lenN (enc_fields [Nonce b]) = nonce_field_len (lenN b).
+Proof.
+  unfold enc_fields, nonce_field_len. cbn [flat_map enc_subfield]. rewrite app_nil_r.
+  unfold enc_u8, enc_bytes_vec, lenN. cbn [app length]. rewrite app_length. lia.
+Qed.
